@@ -47,6 +47,8 @@ def main():
     for p in props:
         t = time.time()
         env2 = dict(env, VERIF_REPO=wt)
+        if '--full' not in args:
+            env2['VERIF_SEEDTEST_STOP'] = p     # stop the shared mapper exploration at the first natively confirmed violation of p
         rc, out = sh('./check %s --tier quick' % p, cwd='/verif', env=env2)
         lines = [l for l in out.split('\n') if l.startswith(('VIOLATION', 'KNOWN-FINDING', 'INCONCLUSIVE', '  '))]
         res['checks'][p] = {'rc': rc, 'secs': round(time.time() - t, 1), 'lines': lines[:6]}
